@@ -6,11 +6,11 @@
 #include "harness.h"
 using namespace Clipper2Lib;
 
-struct PRec { int kind; int et, jt; double gd; int64_t id; size_t len; };   // kind: 1 polygon, 2 joined, 3 open, 4 ellipse, 5 square point
+struct PRec { int kind; int et, jt; double gd; int64_t id; size_t len; double temp_lim; };   // kind: 1 polygon, 2 joined, 3 open, 4 ellipse, 5 square point
 static PRec LAST; static int NLOG; static bool g_push;   // g_push: workers also append to the solution (needed only where the clean-up union is observed)      // only the most recent worker invocation is kept (no symbolically indexed log)
 static void rec(int kind, ClipperOffset* s, const Path64& p) {
   NLOG++;
-  LAST.kind = kind; LAST.et = (int)s->end_type_; LAST.jt = (int)s->join_type_; LAST.gd = s->group_delta_; LAST.id = p.size() ? p[0].x : -1; LAST.len = p.size();
+  LAST.kind = kind; LAST.et = (int)s->end_type_; LAST.jt = (int)s->join_type_; LAST.gd = s->group_delta_; LAST.id = p.size() ? p[0].x : -1; LAST.len = p.size(); LAST.temp_lim = s->temp_lim_;
 }
 extern "C" __attribute__((noinline)) void stub_polygon(ClipperOffset* s, ClipperOffset::Group& g, const Path64& p) { rec(1, s, p); if (g_push) s->solution->emplace_back(p); }
 extern "C" __attribute__((noinline)) void stub_joined(ClipperOffset* s, ClipperOffset::Group& g, const Path64& p) { rec(2, s, p); if (g_push) s->solution->emplace_back(p); }
@@ -160,6 +160,30 @@ extern "C" void harness_execute_overloads() {
   VA(C.n_exec == 2 && !C.poly && C.n_bp == 1 && C.bp_target == (const void*)&sol && C.n_bt == 1);
   co.Execute(nd_delta(), tree2);
   VA(C.n_exec == 3 && C.poly && C.n_bt == 2 && C.bt_target == (const void*)&tree2 && C.n_bp == 1);
+  verif_reach();
+}
+
+// C06 (miter clause) / C12: the miter threshold the join selection uses during an Execute is the one of the miter limit in force at
+// that Execute (constructor value, or the value set since through MiterLimit()), on every call of a reused object
+extern "C" void harness_miter_limit_in_force() {
+  static const double ML[6] = {0.5, 1.0, 1.5, 2.0, 4.0, 10.0};
+  static const double TL[6] = {2.0, 2.0, 2.0 / (1.5 * 1.5), 2.0 / (2.0 * 2.0), 2.0 / (4.0 * 4.0), 2.0 / (10.0 * 10.0)};
+  int i0 = nd_int(0, 5), i1 = nd_int(0, 5), i2 = nd_int(0, 5);
+  ClipperOffset& co = *new ClipperOffset(ML[i0]);
+  Paths64 g1; g1.push_back(mk(3, 1000));
+  co.AddPaths(g1, JoinType::Miter, EndType::Polygon);
+  Paths64 sol; sol.reserve(8);
+  g_push = true; NLOG = 0;
+  co.Execute(nd_delta(), sol);
+  VA(NLOG == 1 && same_double(LAST.temp_lim, TL[i0]));
+  co.MiterLimit(ML[i1]);
+  VA(same_double(co.MiterLimit(), ML[i1]));
+  co.Execute(nd_delta(), sol);
+  VA(NLOG == 2 && same_double(LAST.temp_lim, TL[i1]));
+  co.MiterLimit(ML[i2]);
+  PolyTree64& tree = *new PolyTree64();
+  co.Execute(nd_delta(), tree);
+  VA(NLOG == 3 && same_double(LAST.temp_lim, TL[i2]));
   verif_reach();
 }
 
